@@ -322,8 +322,10 @@ class Context:
                     # the same sweep over a directory that already holds the complete entry of a colliding
                     # key (file names collide when PYTHONHASHSEED is unset), for every such key
                     for other in others:
+                        twin = len(self.info["pool"][other]) == len(self.info["pool"][j])
                         for n in range(steps):
-                            items.append((hu, j, writer, n, other, True))
+                            if twin or n % 3 == 0:  # entries of equal size: every step; others: every third
+                                items.append((hu, j, writer, n, other, True))
         items.sort(key=lambda it: (it[3], it[1], it[2], it[5]))  # low offsets of every file first
         return items
 
